@@ -345,9 +345,13 @@ class ODFWriter:
                 and isinstance(obj.get_first_child(), advtree.ImageLink)
             )
             # handle special case nothing but an image in a paragraph
-            if img_as_only_child and isinstance(obj.next, advtree.Paragraph):
+            if (
+                img_as_only_child
+                and isinstance(obj.next, advtree.Paragraph)
+                and obj.next.children
+            ):
                 img = obj.get_first_child()
-                img.move_to(obj.next.getFirstChild(), prefix=True)
+                img.move_to(obj.next.get_first_child(), prefix=True)
                 return SkipChildren()
             return ParagraphProxy(stylename=style.textbody)
 
